@@ -365,6 +365,27 @@ class RewriteRule(Pattern):
                 f"Number of outputs from replacement function does not match the number of outputs from the target pattern. "
                 f"Expected {self._target_pattern.num_outputs}, but got {len(replacement_subgraph.new_outputs)}."
             )
+        if self.remove_nodes and not self.as_function:
+            # A pattern variable may be bound to a value computed inside the match (Sub(Mul(x, y), z)
+            # matches Sub(t, t) with t = Mul(x, y)): a replacement that uses it cannot be applied,
+            # as the node that computes the value is about to be removed.
+            removed_values = {
+                id(v)
+                for n in match.nodes
+                for v in n.outputs
+                if not any(v is o for o in match.outputs)
+            }
+            for new_node in replacement_subgraph.new_nodes:
+                if any(v is not None and id(v) in removed_values for v in new_node.inputs):
+                    if tracer:
+                        tracer.log(
+                            self,
+                            graph_or_function,
+                            node,
+                            match,
+                            _basics.MatchStatus.REPLACEMENT_FAILED,
+                        )
+                    return None
         # TODO(rama): Remove the opset imports from deleted nodes?
         _update_opset_imports(graph_or_function, replacement_subgraph)
         _update_opset_imports(model.graph, replacement_subgraph)
